@@ -201,6 +201,27 @@ CHECKS['C05'] = dict(
          'cards plus 3+5, Omaha up to 5+5; the hand tables themselves are C04; itertools.combinations trusted as documented.',
     technique='sidecar contracts + own VC generator over the real AST (abstract cards, uninterpreted validity / strength per card set) + z3')
 
+CHECKS['C07'] = dict(
+    category='proof',
+    text='Every function of the operation cascade (16 public operations, 27 _begin/_update/_end steps, _begin, __post_init__) is executed '
+         'symbolically from an arbitrary pre-state satisfying its precondition components (chips, phase exclusivity, and the local facts of '
+         'each phase: contracts/engine.py and contracts/flow.py), callees of the cascade replaced by their contracts, automation loops cut '
+         'by the invariant. Obligations: (1) exactly one phase is pending while the hand is not over, none after -- at every call site, loop '
+         'and exit; (2) NO assert statement, index error, division by zero or other exception of the real bodies is reachable (every such '
+         'exit is one obligation), and an operation that the cascade performs itself (automation) finds its own verifier satisfied, so no '
+         'refusal escapes part-way; the constructor establishes the invariant; (3) availability: the seventeen real can_* queries, executed '
+         'on an arbitrary invariant state, have a true member iff the hand is not over, and only of the pending phase; (4) order: where '
+         '_end_bet_collection and _end_showdown hand over is proved equal to spec/phases.py, and the call graph of all phase steps is the '
+         'documented graph (structural scan); (5) progress: every operation strictly reduces a non-negative lexicographic quantity when it '
+         'hands over to its phase step.',
+    design_ref='DESIGN.md section 4 (C07), section 8',
+    note='D/shape: n in {2,3}, 2 streets, <= 2 run-outs, loops unrolled to 6. Two known findings (F6a everybody mucks, F6b pot without '
+         'contender) are matched by obligation; everything else is proved under the hypothesis excluding them. Hypotheses of the statement '
+         '(deck large enough; hands reaching a showdown are known) are assumptions. That the progress lemmas bound the length of every '
+         'history is a paper argument. Components are evaluated natively on random real hands on every run (guard).',
+    technique='sidecar contracts (invariant components per phase) + own VC generator over the real AST with contract cuts and loop-invariant '
+              'cuts + z3; AST call-graph scan; native replay of counter-models; native guard against vacuity')
+
 NOT_APPLICABLE = {
     'C20': 'regex-driven text importers against external site formats; no contract within reach expresses or decides it (DESIGN.md section 5)',
 }
